@@ -63,7 +63,7 @@ func runC04(c *Check, rng *rand.Rand) {
 func c04config(c *Check, seed int64, cf c04cfg) {
 	rng := rand.New(rand.NewSource(seed))
 	env, err := NewEnv(EnvOpt{Masters: cf.masters, Replicas: cf.replicas,
-		Cfg:  ProxyCfg{Password: cf.password, DisableSlave: cf.disableSlave, Env: c04hooks(cf)},
+		Cfg: ProxyCfg{Password: cf.password, DisableSlave: cf.disableSlave, Env: c04hooks(cf)},
 		Topo: func(cl *Cluster) *Topo {
 			t := RandomTopo(cl, cf.masters, cf.replicas, cf.ranges, rng.Intn)
 			if cf.replicas > 0 && cf.masters > 2 {
@@ -460,7 +460,6 @@ func roleName(r Role) string {
 	}
 	return "local"
 }
-
 
 // c04hooks arms a delay inside the topology refresh (between the node map and the
 // replica sets being replaced) for configurations that change topology live, so that
